@@ -33,6 +33,8 @@ MODELLED = {
     "iblt.insert": "network/dag/tree/iblt.go Insert/Delete/bucketIndices (iblt_bucket_indices_total)",
     "iblt.raw": "network/dag/tree/iblt.go UnmarshalBinary+Decode on any byte string (iblt_unmarshal_total, iblt_decode_terminates)",
     "murmur": "twmb/murmur3 vs NutsModel/C19/Murmur.lean (tie of the concrete hash instance)",
+    "slc.update": "vcr/revocation/statuslist2021_verifier.go update + validate (statuslist_total); Verify's per-entry loop is in the model (statuslist_total) but only sampled on the real code",
+    "didkey": "vdr/didkey/resolver.go Resolve: checks between the DID string and the library calls (didkey_total)",
     "callback": "auth/api/iam/openid4vp.go withCallbackURI and validatePresentationNonce's nonces[0] inside handleAuthorizeResponseSubmission (callback_total_in_handler; the stand-alone withCallbackURI is partial)",
 }
 # modelled ops whose panic outcome is NOT a property violation by itself: the function is called directly by the harness with
@@ -44,7 +46,7 @@ REQUIRED = [
     "service_resolve_terminates", "bitstring_total", "iblt_unmarshal_total", "subtract_mismatch_is_error",
     "iblt_bucket_indices_total", "iblt_bucket_indices_exact", "iblt_insert_delete_total", "iblt_decode_terminates", "iblt_decode_fuel_irrelevant", "iblt_decode_total",
     "iblt_handle_set_total", "iblt_zero_buckets_never_divide", "murmur_chain_short_cycles", "iblt_unbounded_chain_hangs",
-    "iblt_small_table_hangs_unfixed", "callback_total_in_handler", "callback_empty_envelope_needs_guard", "callback_standalone_partial", "panic_sites_accounted",
+    "iblt_small_table_hangs_unfixed", "callback_total_in_handler", "callback_empty_envelope_needs_guard", "statuslist_total", "statuslist_guards_needed", "didkey_total", "callback_standalone_partial", "panic_sites_accounted",
     "model_panics_only_at_listed_sites", "fact_cfg_is_fixed", "fact_constants", "iblt_decode_pass_bound", "dpop_parse_ok_claims_are_strings",
 ]
 
